@@ -623,6 +623,9 @@ def journal_trace(seed, n_events=300, workdir=None, keep_obs=False, listeners=()
     if cfg['dump'] is None:
         cfg['min_entries'] = 10 ** 9      # journal-only nodes with in-memory compaction forget their state (KF-C06-D18)
         cfg['min_time'] = 10 ** 9
+    elif rng.random() < 0.3:
+        cfg['ballast'] = 20000            # snapshots larger than any I/O buffer
+        cfg['chunk'] = rng.choice([500, 3000])
     rec = Recorder(cfg, workdir)
     rec.keep_obs = keep_obs
     rec.listeners = list(listeners)
@@ -668,6 +671,9 @@ def killpoint_trace(seed, n_events=300, workdir=None, keep_obs=False, listeners=
         cfg['min_time'] = 10 ** 9
     else:
         cfg['min_entries'] = rng.choice([3, 6, 10 ** 9])
+        if rng.random() < 0.3:
+            cfg['ballast'] = 20000
+            cfg['chunk'] = rng.choice([500, 3000])
     rec = Recorder(cfg, workdir)
     rec.keep_obs = keep_obs
     rec.listeners = list(listeners)
